@@ -96,7 +96,8 @@ corollary("C12.inv.pixel_coordinates_2d_from", props=["C12"],
 
 # S2: the query grid translated by d, elementwise
 _S2 = ["S.shape[1] == 2", "S2.shape[0] == S.shape[0]", "S2.shape[1] == 2",
-       "forall(0, S.shape[0], lambda k: S2[k, 0] == S[k, 0] + d[0] and S2[k, 1] == S[k, 1] + d[1])"]
+       "forall(0, S.shape[0], lambda k: S2[k, 0] == S[k, 0] + d[0], pat=S2[k, 0])",
+       "forall(0, S.shape[0], lambda k: S2[k, 1] == S[k, 1] + d[1], pat=S2[k, 1])"]
 _GV = {"S": "real[2]", "S2": "real[2]", **GEO, **OD}
 _GL = {**SHP, "N": "S.shape[0]"}
 
@@ -116,18 +117,29 @@ corollary("C12.inv.grid_pixels_2d_slim_from", props=["C12"],
                    "forall(0, N, lambda k: r2[k, 0] == r1[k, 0] and r2[k, 1] == r1[k, 1])"],
           sentence="the continuous pixel coordinates of correspondingly translated points are unchanged (all points)")
 
+# For the two truncating conversions the statement is made about an ARBITRARY entry k and the pixel (i, j) whose open
+# square contains it (k, i, j are free variables of the corollary = universally quantified): the goals are then ground.
+# The first conjuncts restate "the translated point lies in the translated square" -- the hypothesis of the callee's
+# postcondition at origin o + d -- so that the proof stays on e-matching.
+_CY2 = "((o[0] + d[0]) + ((H - 1) / 2 - i) * sy)"
+_CX2 = "((o[1] + d[1]) + (j - (W - 1) / 2) * sx)"
+_INY2 = _CY2 + " - sy / 2 < S2[k, 0] and S2[k, 0] < " + _CY2 + " + sy / 2"
+_INX2 = _CX2 + " - sx / 2 < S2[k, 1] and S2[k, 1] < " + _CX2 + " + sx / 2"
+_KIJ = {"k": "int", "i": "int", "j": "int"}
+_KIJ_REQ = ["0 <= k", "k < N", "0 <= i", "i < H", "0 <= j", "j < W"]
+
 corollary("C12.inv.grid_pixel_centres_2d_slim_from", props=["C12"],
-          vars=_GV, let=_GL, requires=POS + _S2,
+          vars={**_GV, **_KIJ}, let=_GL, requires=POS + _S2 + _KIJ_REQ,
           calls=_both(G + "grid_pixel_centres_2d_slim_from"),
           ensures=["r2.shape[0] == r1.shape[0]",
-                   "forall(0, N, lambda k: forall(0, H, lambda i: implies(" + _INY + ", r2[k, 0] == r1[k, 0] and r1[k, 0] == i)))",
-                   "forall(0, N, lambda k: forall(0, W, lambda j: implies(" + _INX + ", r2[k, 1] == r1[k, 1] and r1[k, 1] == j)))"],
+                   "implies(" + _INY + ", (" + _INY2 + ") and r2[k, 0] == r1[k, 0] and r1[k, 0] == i)",
+                   "implies(" + _INX + ", (" + _INX2 + ") and r2[k, 1] == r1[k, 1] and r1[k, 1] == j)"],
           sentence="the pixel (y,x) indices of correspondingly translated points are unchanged (points inside a pixel square of the extent)")
 
 corollary("C12.inv.grid_pixel_indexes_2d_slim_from", props=["C12"],
-          vars=_GV, let=_GL, requires=POS + _S2,
+          vars={**_GV, **_KIJ}, let=_GL, requires=POS + _S2 + _KIJ_REQ,
           calls=_both(G + "grid_pixel_indexes_2d_slim_from"),
           ensures=["r2.shape[0] == r1.shape[0]",
-                   "forall(0, N, lambda k: forall(0, H, lambda i: forall(0, W, lambda j: implies((" + _INY + ") and (" + _INX + "),"
-                   " r2[k] == r1[k] and r1[k] == i * W + j))))"],
+                   "implies((" + _INY + ") and (" + _INX + "),"
+                   " (" + _INY2 + ") and (" + _INX2 + ") and r2[k] == r1[k] and r1[k] == i * W + j)"],
           sentence="the flattened pixel indices of correspondingly translated points are unchanged (points inside a pixel square of the extent)")
